@@ -19,7 +19,11 @@
 (* Units of the abstract parameters (harness/equiv.py converts): bus vn 0.1 kV; line len m, r/x mOhm/km, c nF/km,        *)
 (* g uS/km, maxi A; impedance r/x 1e-4 pu on sn MVA; powers kW / kvar; voltages setpoints milli-pu; xward r/x mOhm.        *)
 EXTENDS Integers, Sequences, FiniteSets, TLC
-Topo == INSTANCE Topology          \* shared topology model: Reach (undirected reachability over 2-tuples)
+\* undirected reachability over a set E of 2-tuples (same definition as Topology!Reach; kept local so that this domain does not
+\* depend on the template constants of Topology.tla)
+RECURSIVE Reach(_, _)
+Reach(S, E) == LET N == S \cup {e[2] : e \in {e \in E : e[1] \in S}} \cup {e[1] : e \in {e \in E : e[2] \in S}}
+               IN IF N = S THEN S ELSE Reach(N, E)
 
 \* ---- tables ------------------------------------------------------------------------------------------------------------
 NodeT == {"ext_grid", "gen", "sgen", "load", "ward", "xward", "shunt"}          \* one bus reference `bus`
@@ -109,7 +113,7 @@ OpenAt(net, l, b) == \E s \in LineSw(net, l) : net.switch[s].bus = b /\ ~net.swi
 BBClosed(net) == {s \in Names(net, "switch") : net.switch[s].et = "b" /\ net.switch[s].closed}
 \* closed bus-bus switches have z_ohm = 0 in this template: they FUSE their buses (build_bus.py create_bus_lookup)
 FuseE(net) == {<<net.switch[s].bus, net.switch[s].elem>> : s \in BBClosed(net)}
-Class(net, b) == Topo!Reach({b}, FuseE(net))
+Class(net, b) == Reach({b}, FuseE(net))
 \* conducting connections (topology.unsupplied_buses, respect_switches): an open switch at either end interrupts a line
 LiveLines(net) == {l \in Names(net, "line") : net.line[l].ins /\ ~OpenAt(net, l, net.line[l].from) /\ ~OpenAt(net, l, net.line[l].to)}
 CondE(net) == {e \in FuseE(net) \cup {<<net.line[l].from, net.line[l].to>> : l \in LiveLines(net)}
@@ -118,13 +122,13 @@ CondE(net) == {e \in FuseE(net) \cup {<<net.line[l].from, net.line[l].to>> : l \
                 : e[1] \in Live(net) /\ e[2] \in Live(net)}
 SlackBuses(net) == {net.ext_grid[e].bus : e \in {e \in Names(net, "ext_grid") : net.ext_grid[e].ins}}
                    \cup {net.gen[g].bus : g \in {g \in Names(net, "gen") : net.gen[g].ins /\ net.gen[g].slack}}
-Supplied(net) == Topo!Reach(SlackBuses(net) \cap Live(net), CondE(net))
+Supplied(net) == Reach(SlackBuses(net) \cap Live(net), CondE(net))
 \* wiring components: everything that is attached to a bus by any branch or switch, whatever its status
 WireE(net) == {<<net.switch[s].bus, net.switch[s].elem>> : s \in {s \in Names(net, "switch") : net.switch[s].et = "b"}}
               \cup {<<net.line[l].from, net.line[l].to>> : l \in Names(net, "line")}
               \cup {<<net.trafo[t].hv, net.trafo[t].lv>> : t \in Names(net, "trafo")}
               \cup {<<net.impedance[i].from, net.impedance[i].to>> : i \in Names(net, "impedance")}
-Component(net, b) == Topo!Reach({b}, WireE(net))
+Component(net, b) == Reach({b}, WireE(net))
 \* buses of an element
 BusesOf(net, t, n) == IF t \in NodeT THEN {net[t][n].bus} ELSE IF t \in FtT THEN {net[t][n].from, net[t][n].to}
                       ELSE IF t = "trafo" THEN {net.trafo[n].hv, net.trafo[n].lv} ELSE IF t = "bus" THEN {n}
@@ -181,7 +185,7 @@ DropOos(net) ==
 Isolate(net) ==
     LET U == Names(net, "bus") \ Supplied(net)
         conn(l) == \E b \in {net.line[l].from, net.line[l].to} : b \in U /\ ~OpenAt(net, l, b)
-        far(l) == \E s \in LineSw(net, l) : ~net.switch[s].closed /\ (({net.line[l].from, net.line[l].to} \ {net.switch[s].bus}) \cap U # {})
+        far(l) == \E s \in LineSw(net, l) : ~net.switch[s].closed /\ ~(({net.line[l].from, net.line[l].to} \ {net.switch[s].bus}) \subseteq (Live(net) \ U))
         node(tab) == [n \in DOMAIN tab |-> [tab[n] EXCEPT !.ins = tab[n].ins /\ tab[n].bus \notin U]]
     IN [net EXCEPT !.bus = [b \in Names(net, "bus") |-> [net.bus[b] EXCEPT !.ins = net.bus[b].ins /\ b \notin U]],
                    !.line = [l \in Names(net, "line") |-> [net.line[l] EXCEPT !.ins = net.line[l].ins /\ ~conn(l) /\ ~far(l)]],
@@ -362,7 +366,7 @@ Special(W) ==
 FusedPairs(net, side) ==
     LET E == FuseE(net)
         cand == {e[1] : e \in E} \cup {e[2] : e \in E}
-        prs == {p \in cand \X cand : p[1] # p[2] /\ net.bus[p[1]].pos < net.bus[p[2]].pos /\ p[2] \in Topo!Reach({p[1]}, E)}
+        prs == {p \in cand \X cand : p[1] # p[2] /\ net.bus[p[1]].pos < net.bus[p[2]].pos /\ p[2] \in Reach({p[1]}, E)}
     IN {M("fused", side, {<<"bus", p[1], c>>}, side, {<<"bus", p[2], c>>}) : p \in prs, c \in {"vm", "va"}}
 \* total losses: the sum over all branch rows (not for the xward replacement, whose series branch has no row before, and
 \* not when only a part of the network is kept)
